@@ -204,6 +204,9 @@ func (o *Option) MarshalBinary() (data []byte, err error) {
 }
 
 func (o *Option) UnmarshalBinary(data []byte) error {
+	if len(data) < 2 {
+		return errors.New("The []byte is too short to unmarshal a full Option message.")
+	}
 	n := 0
 	o.Type = data[n]
 	n += 1
